@@ -1,0 +1,74 @@
+//go:build verif
+
+// Thin forwarding functions for the verification harness in /verif (build tag `verif` only).
+// Each checker appends the accessors it needs; nothing here changes behaviour.
+package shell_operator
+
+import (
+	"context"
+
+	"github.com/deckhouse/deckhouse/pkg/log"
+
+	klient "github.com/flant/kube-client/client"
+	"github.com/flant/shell-operator/pkg/hook"
+	"github.com/flant/shell-operator/pkg/hook/task_metadata"
+	objectpatch "github.com/flant/shell-operator/pkg/kube/object_patch"
+	metricstorage "github.com/flant/shell-operator/pkg/metric_storage"
+	"github.com/flant/shell-operator/pkg/task"
+	"github.com/flant/shell-operator/pkg/task/queue"
+	"github.com/flant/shell-operator/pkg/webhook/conversion"
+)
+
+// VerifConversionEventHandler returns the production conversion event handler (the function
+// initConversionWebhookManager installs as ConversionWebhookManager.EventHandlerFn).  [C15]
+func (op *ShellOperator) VerifConversionEventHandler() conversion.EventHandlerFn {
+	return op.conversionEventHandler
+}
+
+// VerifHandleRunHook forwards to handleRunHook: run the hook process, read its files, then
+// ParseOperations / ExecuteOperations on the kubernetes patch file, metrics, responses.  [C13]
+func (op *ShellOperator) VerifHandleRunHook(t task.Task, taskHook *hook.Hook, hookMeta task_metadata.HookMetadata, logger *log.Logger, hookLogLabels map[string]string, metricLabels map[string]string) error {
+	return op.handleRunHook(t, taskHook, hookMeta, logger, hookLogLabels, metricLabels)
+}
+
+// VerifAssemble builds a ShellOperator on the given kube client (a fake cluster in the harness) without HTTP
+// servers, debug socket or webhook managers' TLS: metric storages, event managers, hook manager with the real
+// schedule/kube event handler closures of initHookManager.  [lead: operator-level harness]
+func VerifAssemble(ctx context.Context, kubeClient *klient.Client, hooksDir, tempDir string, logger *log.Logger) (*ShellOperator, error) {
+	op := NewShellOperator(ctx, WithLogger(logger))
+	op.MetricStorage = metricstorage.NewMetricStorage(op.ctx, "verif_", true, logger)
+	op.HookMetricStorage = metricstorage.NewMetricStorage(op.ctx, "verif_hook_", true, logger)
+	op.KubeClient = kubeClient
+	op.ObjectPatcher = objectpatch.NewObjectPatcher(kubeClient, logger)
+	op.SetupEventManagers()
+	op.setupHookManagers(hooksDir, tempDir)
+	if err := op.initHookManager(); err != nil {
+		return op, err
+	}
+	return op, nil
+}
+
+// VerifBootstrap runs the part of Start() that does not need the HTTP server.
+func (op *ShellOperator) VerifBootstrap(startQueues bool) {
+	op.bootstrapMainQueue(op.TaskQueues)
+	if startQueues {
+		op.TaskQueues.StartMain()
+	}
+	op.initAndStartHookQueues()
+	op.ManagerEventsHandler.Start()
+	op.ScheduleManager.Start()
+}
+
+// VerifTaskHandler is the handler installed in every queue.
+func (op *ShellOperator) VerifTaskHandler(t task.Task) queue.TaskResult { return op.taskHandler(t) }
+
+// VerifCombine forwards to the internal combineBindingContextForHook used by taskHandleHookRun.
+func (op *ShellOperator) VerifCombine(q *queue.TaskQueue, t task.Task) *CombineResult {
+	return op.combineBindingContextForHook(op.TaskQueues, q, t, nil)
+}
+
+// VerifInitAdmission forwards to initValidatingWebhookManager (needs webhook settings with certificates).
+func (op *ShellOperator) VerifInitAdmission() error { return op.initValidatingWebhookManager() }
+
+// VerifInitConversion forwards to initConversionWebhookManager.
+func (op *ShellOperator) VerifInitConversion() error { return op.initConversionWebhookManager() }
